@@ -19,7 +19,7 @@ P = {
          "(a refused graph: no step, no handler, nothing recorded) is proved on the agent's action-list model and checked on real in-process "
          "agent runs (cycle / missing dependency / control), with a watchdog: an admitted cyclic graph that makes the agent hang is a monitor "
          "failure. Link to the scheduler model: every configuration that passes admission has a rank decreasing along dependencies "
-         "(C14_accepted_graph_wf_deps) and every run of it can be driven to completion from any reachable state (C14_accepted_graph_completes).",
+         "(C14_accepted_graph_wf_deps) and every run of it can be driven to completion from any reachable state (C14_accepted_graph_completes); an accepted edge list has a duplicate-free order of all its nodes in which every dependency of a node stands behind it (C14_accepted_has_topological_order).",
          "Modelled: findStep/addEdge/hasCycle of graph.go and the order of actions of agent.Run. Step names distinct (premise of the property).",
          "Coq proof (Kahn elimination <-> acyclic, induction + pigeonhole) + differential correspondence evaluated by vm_compute",
          "DESIGN.md section 5, C14"),
